@@ -408,6 +408,7 @@ fn call() -> impl Strategy<Value = Call> {
 
 fn run(ctx: &Ctx) -> Report {
     let mut rep = Report::new(RULE);
+    rep.assume(&prog::budget_note());
     rep.assume("ids are handed out sequentially from 0 (needed only to name the file created by add_file in the model)");
     // exhaustive short sequences
     let alpha = alphabet();
